@@ -386,6 +386,30 @@ def hostile_message(k):
     return ids, vals
 
 
+HOSTILE_NAMES = ["A = B", "x b' y", "#hash", "-> A12001 fake", "3", "<<<<<< section 9 >>>>>>", "###### subset 1 of 1 ######",
+                 "Z" * 100, "tab\there", "ends with quote '", 'ends "', "trailing  ", "  leading", "....dots", "1 2 3", "", "b'"]
+
+
+class hostile_names(object):
+    def __init__(self, m, k):
+        seen = {}
+        for descs in m.template_data.value.decoded_descriptors_all_subsets:
+            for d in descs:
+                if hasattr(d, 'name') and type(d).__name__ == 'ElementDescriptor':
+                    seen[id(d)] = d
+        self.ds = list(seen.values())
+        self.k = k
+
+    def __enter__(self):
+        self.old = [d.name for d in self.ds]
+        for j, d in enumerate(self.ds):
+            d.name = HOSTILE_NAMES[(self.k * 3 + j) % len(HOSTILE_NAMES)]
+
+    def __exit__(self, *a):
+        for d, n in zip(self.ds, self.old):
+            d.name = n
+
+
 def text_hostile_strings(ctx):
     from pybufrkit.decoder import Decoder
     for k in range(ctx.n(21, 63)):
@@ -400,6 +424,11 @@ def text_hostile_strings(ctx):
         ctx.count(('hostile', k), True)
         ctx.dist['hostile-strings'] += 1
         check_message(ctx, {'hostile': k, 'ids': ids}, toks, b, 'hostile-%d' % k)
+        # the same message with hostile element NAMES (the Table B objects are shared: renamed and restored)
+        with hostile_names(m, k):
+            ctx.count(('hostile-names', k), True)
+            ctx.dist['hostile-names'] += 1
+            check_message(ctx, {'hostile': k, 'ids': ids, 'names': True}, toks, b, 'hostile-names-%d' % k)
 
 
 def zero_subsets_probe(ctx):
@@ -641,7 +670,12 @@ def replay(ctx, rec):
         ids, vals = hostile_message(c['hostile'])
         b = B.encode_message(ids, vals, False, 4, 33).serialized_bytes
         m = Decoder().process(b, wire_template_data=False)
-        check_message(ctx, c, B.template_tokens(m.template_data.value.template), b, 'replay')
+        toks = B.template_tokens(m.template_data.value.template)
+        if c.get('names'):
+            with hostile_names(m, c['hostile']):
+                check_message(ctx, c, toks, b, 'replay')
+        else:
+            check_message(ctx, c, toks, b, 'replay')
         return {'violations': len(ctx.violations)}
     cases = [{'ids': c['ids'], 'version': c.get('version', 33), 'edition': c.get('edition', 4), 'nsub': c['nsub'],
               'compressed': False, 'forced': c['forced'], 'seed': c['seed'], 'maxrep': 3, 'features': {}, 'shared': False}]
